@@ -1,5 +1,5 @@
 """C09 -- errors reach the nearest try; deferred calls run once, LIFO, on every exit (spec/AnkoSem.tla)."""
-import os
+import os, json, concurrent.futures
 import vlib, corecheck, progs, frames
 
 LEVEL = "model_checking"
@@ -9,7 +9,113 @@ RULE = ("Functions and top level with 0..3 defers and a terminator (normal end, 
         "with the real VM. distinct_nontrivial = distinct programs with a definite expected outcome and >= 2 probe effects.")
 
 
+# ---- deferred host calls on every way an invocation ends, the interruption of the run included (spec/AnkoDefer.tla)
+def ind(s): return "\n".join(" " + l for l in s.split("\n"))
+
+DCORES = {
+    "spin": "for {\n p(1)\n}", "recv": "cq = make(chan int64)\nxq = <-cq", "end": "p(1)", "ret": "return 7", "throw": "throw \"x\"", "rterr": "zz9()",
+    "cancelnow": "cancelnow()\np(1)", "recurse": None,
+}
+
+def defer_programs(ctx):
+    """depth 1..3 invocations (top level = depth 1), 0..2 deferred host calls before and 0..1 after the inner call in every frame, a core at the innermost
+    level; the tag of a registration is depth*10 + position, so the trace knows which invocation registered it."""
+    out = []
+    def D(tag): return "defer rel(reg(%d))" % tag
+    def body(depth, maxd, before, after, core, midcancel):
+        pre = [D(depth * 10 + i + 1) for i in range(before)]
+        if midcancel and depth == maxd:
+            pre.insert(1 if before else 0, "defer cancelnow()")       # the cancellation arrives BETWEEN two deferred calls of the invocation being left
+        post = [D(depth * 10 + 5 + i) for i in range(after)]
+        inner = core if depth == maxd else "f%d()" % (depth + 1)
+        return "\n".join(pre + [inner] + post)
+    for maxd in (1, 2, 3):
+        for before in (0, 1, 2):
+            for after in (0, 1):
+                for cn, core in DCORES.items():
+                    for midcancel in (False, True):
+                        if cn == "recurse":
+                            continue
+                        fns = []
+                        for d in range(maxd, 1, -1):
+                            fns.append("func f%d() {\n%s\n}" % (d, ind(body(d, maxd, before, after, core, midcancel))))
+                        src = "\n".join(fns + [body(1, maxd, before, after, core, midcancel), "p(99)"])
+                        out.append({"id": "defer|d%d-b%d-a%d-%s%s" % (maxd, before, after, cn, "-midcancel" if midcancel else ""), "src": src, "pre": "", "threads": 0})
+    # the same function invoked repeatedly (loop, recursion): every invocation has its own deferred calls
+    out.append({"id": "defer|loop-calls-spin", "src": "func g(n) {\n defer rel(reg(21))\n defer rel(reg(22))\n if n == 3 {\n  for {\n   p(1)\n  }\n }\n}\ndefer rel(reg(11))\nfor i in [1, 2, 3] {\n g(i)\n}", "pre": "", "threads": 0})
+    out.append({"id": "defer|recursion-spin", "src": "func r2(n) {\n defer rel(reg(31))\n for {\n  p(1)\n }\n}\nfunc r1(n) {\n defer rel(reg(21))\n r2(n)\n}\ndefer rel(reg(11))\nr1(1)", "pre": "", "threads": 0})
+    out.append({"id": "defer|in-try-spin", "src": "func g() {\n defer rel(reg(21))\n try {\n  defer rel(reg(22))\n  for {\n   p(1)\n  }\n } catch e {\n  p(50)\n }\n}\ndefer rel(reg(11))\ng()", "pre": "", "threads": 0})
+    out.append({"id": "defer|in-loop-body-spin", "src": "func g() {\n for i in [1, 2] {\n  defer rel(reg(21))\n }\n for {\n  p(1)\n }\n}\ng()", "pre": "", "threads": 0})
+    out.append({"id": "defer|spread-variadic-spin", "src": "func g() {\n defer rel([reg(21)]...)\n for {\n  p(1)\n }\n}\ng()", "pre": "", "threads": 0})
+    return out
+
+
+def defer_discipline(ctx):
+    binp = vlib.build_harness(ctx, "cancelharness")
+    for c, exp in (("code", None), ("neg_PollBeforeDeferred", ("ExactlyOnce",)), ("neg_FIFO", ("LIFO",))):
+        r = vlib.run_tlc(ctx, "MC_AnkoDefer", "MC_AnkoDefer_%s.cfg" % c, workers=4, timeout=900, want_lines=False)
+        if exp is None:
+            vlib.tlc_ok(ctx, r, "MC_AnkoDefer")
+        else:
+            vlib.tlc_must_fail(ctx, r, "wrong design %s must be refuted" % c[4:], expect=exp)
+    progs = defer_programs(ctx)
+    maxgate = 22 if ctx.quick() else 40
+    n = 12
+    def shard(k):
+        part = [p for i, p in enumerate(progs) if i % n == k]
+        pp = os.path.join(ctx.work, "dprogs_%d.ndjson" % k)
+        op = os.path.join(ctx.work, "dobs_%d.ndjson" % k)
+        vlib.write_ndjson(pp, part)
+        p = vlib.run_cmd(ctx, [binp, pp, op, str(maxgate)], timeout=3000, ok_codes=None)
+        obs = vlib.read_ndjson(op) if os.path.exists(op) else []
+        if p.returncode != 0:
+            raise vlib.Broken("cancelharness died (rc=%d) on the defer programs: %s" % (p.returncode, p.stderr[-500:]))
+        return obs
+    with concurrent.futures.ThreadPoolExecutor(max_workers=n) as ex:
+        obs = [o for part in ex.map(shard, range(n)) for o in part]
+    byid = {p["id"]: p for p in progs}
+    hung = [o for o in obs if not o["returned"]]
+    obs = [o for o in obs if o["returned"]]            # (a run that does not return is C02's business; its events are incomplete)
+    rej = defer_validate(ctx, obs)
+    ctx.cov["evaluations"] += len(obs)
+    ctx.cov["traces_validated_against_impl"] += len(obs) - len(rej)
+    ctx.cov["distinct_nontrivial"] += len({(o["id"], json.dumps(o["evs"])) for o in obs if o["evs"]})
+    ctx.cov["defer_runs"] = {"programs": len(progs), "runs": len(obs), "cancelled": sum(1 for o in obs if o["delivered"]), "with_events": sum(1 for o in obs if o["evs"]), "not_returned": len(hung)}
+    seen = set()
+    for i in rej:
+        o = obs[i]
+        if o["id"] in seen or len(seen) >= 20:
+            continue
+        seen.add(o["id"])
+        vlib.violation(ctx, "deferred calls of %s (cancellation %s at gate %d %s): registered / ran %s is no behaviour of AnkoDefer (every deferred call runs exactly once, last registered first, when its invocation ends -- by error and by interruption too)\n%s"
+                       % (o["id"], "delivered" if o["delivered"] else "not delivered", o["gate"], o.get("gate_kind", ""), [(e["ev"], e["id"]) for e in o["evs"]], byid[o["id"]]["src"]),
+                       {"kind": "defer-run", "program": byid[o["id"]], "obs": o})
+    if not ctx.violations and obs:
+        # control: a recorded run with its last release removed must be rejected
+        donor = next((o for o in obs if len(o["evs"]) >= 4 and o["evs"][-1]["ev"] == "rel"), None)
+        if donor:
+            bad = dict(donor); bad["evs"] = donor["evs"][:-1]
+            bad2 = dict(donor); bad2["evs"] = donor["evs"][:-2] + [donor["evs"][-1], donor["evs"][-2]]
+            r2 = defer_validate(ctx, [bad, bad2, donor])
+            ok = r2 == [0, 1] or (r2 == [0] and donor["evs"][-2]["ev"] != "rel")
+            ctx.cov["controls"].append({"control": "a recorded run with its last deferred call dropped / its last two swapped must be rejected by Trace_AnkoDefer", "detected": ok})
+            if not ok:
+                raise vlib.Broken("defer corruption control failed: %r" % r2)
+
+
+def defer_validate(ctx, obs):
+    """-> indexes of the runs that are NOT behaviours of AnkoDefer"""
+    op = os.path.join(ctx.work, "defer_runs.ndjson")
+    vlib.write_ndjson(op, [{"id": o["id"], "cancelled": bool(o["delivered"]), "evs": o["evs"] or []} for o in obs])
+    acc = set()
+    r = vlib.run_tlc(ctx, "Trace_AnkoDefer", "Trace_AnkoDefer.cfg", workers=4, timeout=1800, copy=[op], line_cb=lambda v: acc.add(v["accept"]))
+    if r.error or r.violation or r.deadlock:
+        raise vlib.Broken("Trace_AnkoDefer: %s" % (r.error or r.violation or "deadlock"))
+    return [i for i in range(len(obs)) if (i + 1) not in acc]
+
+
 def run(ctx):
+    defer_discipline(ctx)
     binp = vlib.build_harness(ctx, "vmharness")
     trace = os.path.join(ctx.work, "hook_trace.ndjson")
     ctx.assumptions += ["which deferred call's error wins when several fail, finally after a failing catch and finally on a control transfer are left open by the statement",
